@@ -68,6 +68,15 @@ def gen_prog(rng, cfg=None, nsec=None, nseg=None, allow_nested=True, allow_compr
                 keep.append(m)
                 if p.sections[m]["type"] == 8:
                     break
+            # the writer asks for members listed in address order, not in creation (index) order: sometimes list
+            # them in another order (no-bits still last); addresses below follow the listed order
+            if len(keep) >= 2 and rng.random() < 0.3:
+                body = [m for m in keep if p.sections[m]["type"] != 8]
+                tail = [m for m in keep if p.sections[m]["type"] == 8]
+                rng.shuffle(body)
+                if body != sorted(body):
+                    g["shuffled"] = True
+                keep = body + tail
             g["members"] = keep
             used.update(keep)
         g["vaddr"] = vbase + rng.choice([0, 0, 0x40, 0x123]) if g["members"] else rval(rng, w - 1)
@@ -95,7 +104,7 @@ def gen_prog(rng, cfg=None, nsec=None, nseg=None, allow_nested=True, allow_compr
     # nested segments: a contiguous sub-list of an explicit segment's members, starting at that member's address
     if allow_nested:
         for g in list(p.segments):
-            if g["explicit"] and len(g["members"]) >= 2 and rng.random() < 0.4:
+            if g["explicit"] and len(g["members"]) >= 2 and not g.get("shuffled") and rng.random() < 0.4:
                 a = rng.randrange(0, len(g["members"]) - 1 + 1)
                 b = rng.randint(a + 1, len(g["members"]))
                 sub = g["members"][a:b]
@@ -105,9 +114,18 @@ def gen_prog(rng, cfg=None, nsec=None, nseg=None, allow_nested=True, allow_compr
                              paddr=p.sections[sub[0]]["addr"], members=sub, explicit=True, nested_in=g)
                     p.segments.append(n)
     # sections that got no explicit address but are outside segments may get one too
+    # (kept clear of every segment's address range: the writer's domain asks for non-overlapping
+    #  addresses, and an allocated section whose address falls inside a segment is a member of it on reload)
+    def clear_of_segments(a, size):
+        for g in p.segments:
+            if g["members"] and g["vaddr"] - 0x2000 <= a + size and a <= g["vaddr"] + 0x100000:
+                return False
+        return True
     for s in p.sections:
         if s["seg"] is None and s["addr"] is None and rng.random() < 0.25:
-            s["addr"] = rval(rng, w - 1)
+            a = rval(rng, w - 1)
+            if clear_of_segments(a, s["size"]):
+                s["addr"] = a
     # ---- emit
     for i, s in enumerate(p.sections):
         idx = i + 2
